@@ -232,7 +232,35 @@ def canon_rval(x):
 
 
 def real_call(element, arg):
-    """Call the real element; canonical outcome in the shape `Codec.encRes` prints."""
+    """Call the real element on a private copy of the value; canonical outcome in the shape `Codec.encRes` prints.
+    If the call altered the value it was given, the outcome carries `input_altered` (no model outcome has that key,
+    so every comparison with the model notices)."""
+    given = arg if isinstance(arg, NotPassed) else copy.deepcopy(arg)
+    out = _real_call(element, given)
+    if not isinstance(arg, NotPassed):
+        try:
+            same = _same_value(given, arg)
+        except Exception:  # noqa: BLE001
+            same = False
+        if not same:
+            out["input_altered"] = True
+    return out
+
+
+def _same_value(a, b):
+    """type-strict deep equality of JSON-like values (anything foreign, e.g. a NotPassed written into a dict, differs)"""
+    if type(a) is not type(b):
+        return False
+    if isinstance(a, dict):
+        return list(a) == list(b) and all(_same_value(a[k], b[k]) for k in a)
+    if isinstance(a, list):
+        return len(a) == len(b) and all(_same_value(x, y) for x, y in zip(a, b))
+    if isinstance(a, float) and a != a:
+        return b != b
+    return a == b
+
+
+def _real_call(element, arg):
     try:
         with warnings.catch_warnings():
             warnings.simplefilter("ignore")
